@@ -46,7 +46,8 @@ private:
 
     ConstGenericSparseMatrix m_mat;
     const Index m_n;
-    Eigen::SparseLU<SparseMatrix> m_solver;
+    // SparseLU requires column-major storage; compute() converts
+    Eigen::SparseLU<Eigen::SparseMatrix<Scalar, Eigen::ColMajor, StorageIndex>> m_solver;
 
 public:
     ///
